@@ -279,6 +279,18 @@ func (t *collationSortedTree[K, V]) Prefix(p K) iter.Seq2[K, V] {
 
 	keyS, colKey := t.cok.Transform(p)
 
+	// only the primary weights of p are a prefix of the sort keys of longer
+	// strings, the lower levels (and the terminator) follow the first 00 00
+	primary := 0
+	for primary+1 < len(colKey) && (colKey[primary] != 0 || colKey[primary+1] != 0) {
+		if colKey[primary]&0x80 != 0 {
+			primary += 3 // long primary weight
+		} else {
+			primary += 2
+		}
+	}
+	colKey = colKey[:min(primary, len(colKey))]
+
 	root := t.root
 	if t.root.pointer != nil {
 		root = lowestCommonParent[V, *collateLeafNode[V]](root, colKey)
